@@ -201,7 +201,10 @@ MIXED = {"append", "insert", "extend", "remove", "set_parent", "setitem", "reord
          "clone_attach"}
 
 
-def universe_for(v, opcode, variant):
+TYPE_SENSITIVE = {"append", "insert", "extend", "set_parent", "setitem", "clone_attach", "merge"}
+
+
+def universe_for(v, opcode, variant, mode="wf"):
     """
     variant 'S': 1 Document + 3 Sections; variant 'P': 1 Document + 2 Sections + 2 Properties.
     quick tier   : names are free symbolic strings of length exactly 1 (all of Unicode)
@@ -212,6 +215,9 @@ def universe_for(v, opcode, variant):
     if opcode == "link":
         # path strings reach posixpath (C code in 3.12): names from a concrete pool
         kw = dict(name_pool=["a", "ab", "b"])
+    if mode == "frame" and opcode in TYPE_SENSITIVE:
+        # C06: a refusal that is decided on the name alone while a helper matches name AND type
+        kw["one_other_type"] = True
     if variant == "S":
         return C.build_universe(v, 1, 3, 0, **kw)
     return C.build_universe(v, 1, 2, 2, **kw)
@@ -235,7 +241,7 @@ def step(v, opcode, variant, mode):
     mode 'names' : C04 predicate after the step
     mode 'frame' : C06 - if the step raised, the snapshot is unchanged
     """
-    uni = universe_for(v, opcode, variant)
+    uni = universe_for(v, opcode, variant, mode)
     objs = uni.all
     pre = C.wf_problems(objs)
     if pre is not None:
